@@ -1,4 +1,27 @@
-(* placeholder until the proofs are integrated *)
-From DictIO Require Import Chars Str Value Scalar.
-Theorem C17_placeholder : True. Proof. exact I. Qed.
-Print Assumptions C17_placeholder.
+(* C17  The dictParser command line does exactly what the API does (wiring and scope spellings; process
+   behaviour is observed end to end by the check, not modelled). *)
+From Coq Require Import NArith ZArith List Bool.
+From DictIO Require Import Chars Str Value Scalar Cli MiscSpec CliProofs.
+Import ListNotations.
+
+(* every flag set reaches parse() with the documented meaning (negated flags included) *)
+Theorem C17_wiring : forall f, cli_kwargs f = spec_kwargs f.
+Proof. exact cli_wiring. Qed.
+Print Assumptions C17_wiring.
+
+(* a scope given as a word, as a bracketed list and as a bracketed list of quoted words selects the same keys *)
+Theorem C17_scope_word : forall k, scope_word k -> validate_scope k = Ok [SStr k].
+Proof. exact scope_word_ok. Qed.
+Print Assumptions C17_scope_word.
+
+Theorem C17_scope_list : forall ks, ks <> [] -> Forall scope_word ks -> validate_scope (bracketed ks) = Ok (map SStr ks).
+Proof. exact scope_list_ok. Qed.
+Print Assumptions C17_scope_list.
+
+Theorem C17_scope_quoted : forall ks, ks <> [] -> Forall scope_word ks -> validate_scope (quoted_bracketed ks) = Ok (map SStr ks).
+Proof. exact scope_quoted_ok. Qed.
+Print Assumptions C17_scope_quoted.
+
+Example C17_example : validate_scope (bracketed [of_string "scopeA"; of_string "sub"]) = Ok [SStr (of_string "scopeA"); SStr (of_string "sub")]
+  /\ validate_scope (of_string "[scopeA, 12]") = Ok [SStr (of_string "scopeA"); SInt 12].
+Proof. vm_compute. split; reflexivity. Qed.
